@@ -1,4 +1,395 @@
-From Coq Require Import List NArith ZArith Bool.
+(* C10 -- lemmas and proofs *)
+From Coq Require Import List NArith ZArith Bool Lia.
 Import ListNotations.
 Require Import Verif.Lib.Wire Verif.Gen.Facts_C10 Verif.Model.C10.
-Lemma placeholder : True. Proof. exact I. Qed.
+
+(* ------------------------------------------------------------------ regenerated facts *)
+Definition target_ok (e : text * (N * text)) : bool :=
+  let '(n, (_, t)) := e in
+  text_eqb t [100; 101; 102]%N || text_eqb t ([100; 105; 99; 116; 46]%N ++ n).
+
+Definition facts_check : bool :=
+  N.eqb timeout_cmp 0 && N.eqb reissue_cmp 0 && N.eqb limit_cmp 0 && N.eqb cookie_limit 4064
+  && forallb target_ok wrapper_table
+  && Nat.eqb (length payload_fields) 3
+  && text_eqb (nth 0 payload_fields []) [97; 99; 99; 101; 115; 115; 101; 100]%N
+  && text_eqb (nth 1 payload_fields []) [99; 114; 101; 97; 116; 101; 100]%N
+  && text_eqb (nth 2 payload_fields []) [115; 116; 97; 116; 101]%N
+  && N.eqb urandom_n 20.
+
+Lemma facts_ok : facts_check = true.
+Proof. vm_compute. reflexivity. Qed.
+
+(* the wrapper of every method, as the class body has it now, is the one the property needs *)
+Lemma every_mutator_marks_dirty : forall m, wrapper_of m = expected_wrapper m.
+Proof. destruct m; vm_compute; reflexivity. Qed.
+
+Lemma cmp_timeout a b : cmp_eval timeout_cmp a b = Z.gtb a b.
+Proof. reflexivity. Qed.
+Lemma cmp_reissue a b : cmp_eval reissue_cmp a b = Z.gtb a b.
+Proof. reflexivity. Qed.
+Lemma cmp_limit a b : cmp_eval limit_cmp a b = Z.gtb a b.
+Proof. reflexivity. Qed.
+
+(* ------------------------------------------------------------------ list helpers *)
+Lemma firstn_len_app {A} (a b : list A) n : length a = n -> firstn n (a ++ b) = a.
+Proof. intros <-. induction a; simpl; [destruct b; reflexivity | congruence]. Qed.
+Lemma skipn_len_app {A} (a b : list A) n : length a = n -> skipn n (a ++ b) = b.
+Proof. intros <-. induction a; simpl; [reflexivity | assumption]. Qed.
+
+(* ------------------------------------------------------------------ wrappers *)
+Lemma aw_11 o t s : apply_wrap o t (apply_wrap o t s 1%N) 1%N = apply_wrap o t s 1%N.
+Proof.
+  unfold apply_wrap. destruct (reissue o) as [r|]; [|reflexivity].
+  destruct (cmp_eval reissue_cmp (t - tval (renewed s)) r) eqn:E; cbn [renewed with_accessed mark]; rewrite E; reflexivity.
+Qed.
+Lemma aw_12 o t s : apply_wrap o t (apply_wrap o t s 1%N) 2%N = apply_wrap o t s 2%N.
+Proof.
+  unfold apply_wrap. destruct (reissue o) as [r|]; [|reflexivity].
+  destruct (cmp_eval reissue_cmp (t - tval (renewed s)) r); reflexivity.
+Qed.
+Lemma aw_22 o t s : apply_wrap o t (apply_wrap o t s 2%N) 2%N = apply_wrap o t s 2%N.
+Proof. reflexivity. Qed.
+
+(* every operation acts on time stamp and dirty flag exactly as its semantic kind demands,
+   and on the state exactly as the underlying dict operation *)
+Lemma step_eff o p t s :
+  step o p t s = (with_st (eff o (op_cls p (st s)) t s) (fst (raw p (st s))), snd (raw p (st s))).
+Proof.
+  unfold step. f_equal. f_equal.
+  destruct p; cbn [calls op_cls map fold_left eff];
+    try (destruct (token_absent (st s)); cbn [map fold_left]);
+    rewrite ?every_mutator_marks_dirty; cbn [expected_wrapper];
+    rewrite ?aw_11, ?aw_12, ?aw_22; try reflexivity.
+Qed.
+
+Lemma eff_frame o c t s :
+  st (eff o c t s) = st s /\ created (eff o c t s) = created s /\ renewed (eff o c t s) = renewed s
+  /\ isnew (eff o c t s) = isnew s.
+Proof.
+  destruct c; cbn [eff apply_wrap]; try (repeat split; reflexivity).
+  destruct (reissue o); [destruct (cmp_eval _ _ _)|]; repeat split; reflexivity.
+Qed.
+
+Lemma eff_flags o c t s :
+  (accessed (eff o c t s), dirty (eff o c t s)) =
+  match c with
+  | CAcc => (TI t, dirty s || match reissue o with Some ri => Z.gtb (t - tval (renewed s)) ri | None => false end)
+  | CMut => (TI t, true)
+  | CMark => (accessed s, true)
+  end.
+Proof.
+  destruct c; cbn [eff apply_wrap]; try reflexivity.
+  destruct (reissue o) as [r|]; [|cbn; rewrite orb_false_r; reflexivity].
+  rewrite cmp_reissue. destruct (Z.gtb _ _); cbn; [rewrite orb_true_r|rewrite orb_false_r]; reflexivity.
+Qed.
+
+(* a changed state implies the dirty flag (so a cookie will be sent) *)
+Lemma mutation_implies_dirty o p t s :
+  st (fst (step o p t s)) <> st s -> dirty (fst (step o p t s)) = true.
+Proof.
+  rewrite step_eff. cbn [fst with_st st dirty]. intros H.
+  pose proof (eff_flags o (op_cls p (st s)) t s) as F.
+  destruct (op_cls p (st s)) eqn:C; try (inversion F; reflexivity).
+  exfalso. apply H. clear H F.
+  destruct p; cbn [op_cls] in C; try discriminate; cbn [raw fst]; try reflexivity.
+  destruct (token_absent (st s)); [discriminate|reflexivity].
+Qed.
+
+(* ------------------------------------------------------------------ operation lists *)
+Lemma run_ops_spec o l : forall s,
+  spec_ops o (tval (renewed s)) l (st s) (accessed s) (dirty s)
+  = (st (fst (run_ops o l s)), accessed (fst (run_ops o l s)), dirty (fst (run_ops o l s)), snd (run_ops o l s))
+  /\ created (fst (run_ops o l s)) = created s
+  /\ renewed (fst (run_ops o l s)) = renewed s
+  /\ isnew (fst (run_ops o l s)) = isnew s.
+Proof.
+  induction l as [|[p t] r IH]; intros s; [cbn; auto|].
+  cbn [run_ops spec_ops]. rewrite step_eff.
+  destruct (eff_frame o (op_cls p (st s)) t s) as (_ & Hc & Hr & Hn).
+  pose proof (eff_flags o (op_cls p (st s)) t s) as F.
+  assert (Fa := f_equal fst F). assert (Fd := f_equal snd F). cbn [fst snd] in Fa, Fd. clear F.
+  set (c := op_cls p (st s)) in *.
+  set (e := eff o c t s) in *.
+  set (s1 := with_st e (fst (raw p (st s)))).
+  specialize (IH s1).
+  change (st s1) with (fst (raw p (st s))) in IH.
+  change (renewed s1) with (renewed e) in IH.
+  change (accessed s1) with (accessed e) in IH.
+  change (dirty s1) with (dirty e) in IH.
+  change (created s1) with (created e) in IH.
+  change (isnew s1) with (isnew e) in IH.
+  rewrite Hr, Hc, Hn, Fa, Fd in IH.
+  destruct IH as (I1 & I2 & I3 & I4).
+  destruct (run_ops o r s1) as [s2 xs] eqn:R. cbn [fst snd] in *.
+  split; [|auto].
+  destruct c; cbn [fst snd] in I1; rewrite I1; reflexivity.
+Qed.
+
+(* ------------------------------------------------------------------ loading *)
+Lemma init_none O o now : init O o None now = IOk (fresh_sess now).
+Proof.
+  unfold init. cbn. destruct (timeout o) as [t|]; [|reflexivity].
+  match goal with |- context[if ?b then _ else _] => destruct b end; reflexivity.
+Qed.
+
+Lemma init_unsigned O o c now :
+  valid_signed O (key o) c = false -> init O o (Some c) now = IOk (fresh_sess now).
+Proof.
+  unfold valid_signed, init, loads. destruct (unb64 O c) as [f|]; [intros ->|intros _];
+    cbn; (destruct (timeout o) as [t|]; [|reflexivity];
+          match goal with |- context[if ?b then _ else _] => destruct b end; reflexivity).
+Qed.
+
+Lemma valid_signed_spec O k c : mac_len O ->
+  (valid_signed O k c = true <-> exists p, unb64 O c = Some (mac O k p ++ p)).
+Proof.
+  intros Hm. unfold valid_signed. split.
+  - destruct (unb64 O c) as [f|]; [|discriminate]. intros E. apply text_eqb_eq in E.
+    exists (skipn (ds O) f). rewrite E. rewrite firstn_skipn. reflexivity.
+  - intros [p ->]. rewrite skipn_len_app, firstn_len_app by apply Hm. apply text_eqb_refl.
+Qed.
+
+Lemma loads_cookie O o s : rt_b64 O -> rt_ser O -> mac_len O ->
+  loads O (key o) (cookie_of O o s) = Some (payload s).
+Proof.
+  intros Hb Hs Hm. unfold loads, cookie_of. rewrite Hb.
+  rewrite skipn_len_app, firstn_len_app by apply Hm. rewrite text_eqb_refl. apply Hs.
+Qed.
+
+Definition expired (o : opts) (now renewed : Z) : bool :=
+  match timeout o with Some t => Z.gtb (now - renewed) t | None => false end.
+
+Lemma init_cookie_of O o s now : rt_b64 O -> rt_ser O -> mac_len O ->
+  init O o (Some (cookie_of O o s)) now =
+  IOk {| st := if expired o now (tval (accessed s)) then [] else st s;
+         created := TF (tval (created s)); accessed := TF (tval (accessed s));
+         renewed := TF (tval (accessed s)); isnew := false; dirty := false |}.
+Proof.
+  intros Hb Hs Hm. unfold init. rewrite loads_cookie by assumption.
+  unfold payload. cbn [unpack3].
+  assert (F : forall t, float_of (tjv t) = FOk (tval t)) by (destruct t; reflexivity).
+  rewrite !F. unfold expired. cbn [tval].
+  destruct (timeout o) as [t|]; [rewrite cmp_timeout; destruct (Z.gtb _ _)|]; reflexivity.
+Qed.
+
+Lemma init_last O o v now : rt_b64 O -> rt_ser O -> mac_len O ->
+  init O o (Some (cookie_of O o (store_sess v))) now = IOk (start_sess o (Some v) now).
+Proof.
+  intros Hb Hs Hm. rewrite init_cookie_of by assumption.
+  unfold start_sess, spec_start, expired. cbn [store_sess accessed created st tval].
+  destruct (timeout o); reflexivity.
+Qed.
+
+(* ------------------------------------------------------------------ the response callback *)
+Lemma finish_spec O o s exc :
+  finish O o s exc =
+  if dirty s && negb (negb (soe o) && exc)
+  then if Z.gtb (Z.of_nat (length (cookie_of O o s))) (Z.of_N cookie_limit) then FOversize
+       else FCookie (cookie_of O o s)
+  else FNone.
+Proof.
+  unfold finish, set_cookie. rewrite cmp_limit.
+  destruct (dirty s), (negb (soe o) && exc); reflexivity.
+Qed.
+
+Lemma cookie_of_ext O o s s' : payload s = payload s' -> cookie_of O o s = cookie_of O o s'.
+Proof. unfold cookie_of. intros ->. reflexivity. Qed.
+
+(* ------------------------------------------------------------------ one request *)
+Lemma req_refines O o sv' r :
+  let s0 := start_sess o sv' (rt r) in
+  let s1 := fst (run_ops o (rops r) s0) in
+  let rs := snd (run_ops o (rops r) s0) in
+  let f := finish O o s1 (rexc r) in
+  let sp := spec_req O o sv' r in
+  proj (Obs s0 rs s1 f) = Some (fst sp) /\
+  match f with
+  | FCookie c => exists v1, snd sp = Some v1 /\ c = cookie_of O o (store_sess v1)
+  | _ => snd sp = sv'
+  end.
+Proof.
+  cbv zeta. unfold spec_req, start_sess.
+  destruct (spec_start o sv' (rt r)) as [[[nw cr] rn] d0] eqn:SS.
+  set (s0 := {| st := d0; created := TF cr; accessed := TF rn; renewed := TF rn; isnew := nw; dirty := false |}).
+  destruct (run_ops_spec o (rops r) s0) as (E & Hc & Hr & Hn).
+  cbn [s0 st accessed dirty renewed tval created isnew] in E, Hc, Hr, Hn.
+  rewrite E. clear E.
+  set (s1 := fst (run_ops o (rops r) s0)) in *.
+  set (rs := snd (run_ops o (rops r) s0)) in *.
+  assert (P : payload s1 = payload (store_sess {| s_st := st s1; s_created := cr; s_acc := accessed s1 |})).
+  { unfold payload. cbn [store_sess accessed created st]. rewrite Hc. reflexivity. }
+  rewrite <- (cookie_of_ext O o _ _ P).
+  rewrite finish_spec.
+  change (Z.of_N spec_limit) with (Z.of_N cookie_limit).
+  destruct (dirty s1 && negb (negb (soe o) && rexc r)).
+  - destruct (Z.gtb _ _); cbn [fst snd proj N.eqb fin_code].
+    + split; reflexivity.
+    + split; [reflexivity|].
+      eexists; split; [reflexivity|]. apply cookie_of_ext, P.
+  - cbn [fst snd N.eqb]. split; reflexivity.
+Qed.
+
+(* ------------------------------------------------------------------ chains *)
+Lemma chain_dead O o : forall l last sv, Forall2 ok_at (run_chain O o last l) (spec_chain O o sv false l).
+Proof. induction l; intros; cbn; constructor; [exact I|apply IHl]. Qed.
+
+Lemma run_req_ok O o last r s0 :
+  init O o (present last (rsrc r)) (rt r) = IOk s0 ->
+  run_req O o last r = Obs s0 (snd (run_ops o (rops r) s0)) (fst (run_ops o (rops r) s0))
+                           (finish O o (fst (run_ops o (rops r) s0)) (rexc r)).
+Proof. intros E. unfold run_req. rewrite E. destruct (run_ops o (rops r) s0); reflexivity. Qed.
+
+Lemma chain_refines_spec O o : rt_b64 O -> rt_ser O -> mac_len O ->
+  forall l last sv, inv O o last sv ->
+  Forall2 ok_at (run_chain O o last l) (spec_chain O o sv true l).
+Proof.
+  intros Hb Hs Hm. induction l as [|r l IH]; intros last sv Iv; [constructor|].
+  cbn [run_chain spec_chain negb].
+  (* a request that starts from a fresh session *)
+  assert (Fresh : init O o (present last (rsrc r)) (rt r) = IOk (fresh_sess (rt r)) ->
+          Forall2 ok_at (run_req O o last r :: run_chain O o (next_last last (run_req O o last r)) l)
+            (let '(ob, sv') := spec_req O o None r in
+             Some ob :: spec_chain O o (match sv' with Some x => Some x | None => sv end) true l)).
+  { intros E. rewrite (run_req_ok _ _ _ _ _ E).
+    pose proof (req_refines O o None r) as R. cbv zeta in R.
+    change (start_sess o None (rt r)) with (fresh_sess (rt r)) in R.
+    destruct (spec_req O o None r) as [ob sv1]. cbn [fst snd] in R. destruct R as [R1 R2].
+    constructor; [exact R1|]. apply IH. cbn [next_last].
+    destruct (finish O o _ _).
+    - rewrite R2. exact Iv.
+    - destruct R2 as (v1 & -> & ->). reflexivity.
+    - rewrite R2. exact Iv. }
+  destruct (rsrc r) as [| |c] eqn:Sr.
+  - apply Fresh. cbn [present]. apply init_none.
+  - (* the cookie last set *)
+    cbn [present]. destruct last as [c|], sv as [v|]; cbn [inv] in Iv; try contradiction.
+    + subst c.
+      pose proof (init_last O o v (rt r) Hb Hs Hm) as E.
+      assert (E' : init O o (present (Some (cookie_of O o (store_sess v))) (rsrc r)) (rt r)
+                   = IOk (start_sess o (Some v) (rt r))) by (rewrite Sr; exact E).
+      rewrite (run_req_ok _ _ _ _ _ E').
+      pose proof (req_refines O o (Some v) r) as R. cbv zeta in R.
+      destruct (spec_req O o (Some v) r) as [ob sv1]. cbn [fst snd] in R. destruct R as [R1 R2].
+      constructor; [exact R1|]. apply IH. cbn [next_last].
+      destruct (finish O o _ _).
+      * rewrite R2. reflexivity.
+      * destruct R2 as (v1 & -> & ->). reflexivity.
+      * rewrite R2. reflexivity.
+    + specialize (Fresh (init_none O o (rt r))).
+      destruct (spec_req O o None r) as [ob [v1|]]; exact Fresh.
+  - destruct (valid_signed O (key o) c) eqn:V.
+    + constructor; [exact Logic.I|apply chain_dead].
+    + apply Fresh. cbn [present]. apply init_unsigned, V.
+Qed.
+
+(* ------------------------------------------------------------------ named consequences *)
+Lemma finish_cookie_inv O o s exc c :
+  finish O o s exc = FCookie c ->
+  c = cookie_of O o s /\ dirty s = true /\ (soe o = true \/ exc = false)
+  /\ (Z.of_nat (length c) <= Z.of_N cookie_limit)%Z.
+Proof.
+  rewrite finish_spec. destruct (dirty s); [|discriminate].
+  destruct (soe o), exc; cbn; try discriminate;
+    destruct (Z.gtb _ _) eqn:G; try discriminate; intros H; inversion H; subst;
+    (repeat split; auto; rewrite Z.gtb_ltb in G; apply Z.ltb_ge in G; exact G).
+Qed.
+
+Lemma persistence O o s exc c now : rt_b64 O -> rt_ser O -> mac_len O ->
+  finish O o s exc = FCookie c ->
+  expired o now (tval (accessed s)) = false ->
+  exists s0, init O o (Some c) now = IOk s0 /\ st s0 = st s /\ tval (created s0) = tval (created s)
+             /\ isnew s0 = false /\ dirty s0 = false /\ tval (renewed s0) = tval (accessed s).
+Proof.
+  intros Hb Hs Hm F E. apply finish_cookie_inv in F. destruct F as (-> & _).
+  rewrite init_cookie_of by assumption. rewrite E. eexists; split; [reflexivity|]. cbn. auto.
+Qed.
+
+Lemma timeout_boundary O o s exc c t : rt_b64 O -> rt_ser O -> mac_len O ->
+  finish O o s exc = FCookie c -> timeout o = Some t ->
+  (exists s0, init O o (Some c) (tval (accessed s) + t) = IOk s0 /\ st s0 = st s /\ isnew s0 = false)
+  /\ (exists s0, init O o (Some c) (tval (accessed s) + t + 1) = IOk s0 /\ st s0 = [] /\ isnew s0 = false
+                 /\ tval (created s0) = tval (created s)).
+Proof.
+  intros Hb Hs Hm F T. apply finish_cookie_inv in F. destruct F as (-> & _).
+  split; rewrite init_cookie_of by assumption; unfold expired; rewrite T.
+  - replace (tval (accessed s) + t - tval (accessed s))%Z with t by lia.
+    assert (G : (t >? t)%Z = false) by (rewrite Z.gtb_ltb; apply Z.ltb_irrefl).
+    rewrite G. eexists; split; [reflexivity|]. cbn. auto.
+  - replace (tval (accessed s) + t + 1 - tval (accessed s))%Z with (t + 1)%Z by lia.
+    assert (G : (t + 1 >? t)%Z = true) by (rewrite Z.gtb_ltb; apply Z.ltb_lt; lia).
+    rewrite G. eexists; split; [reflexivity|]. cbn. auto.
+Qed.
+
+Lemma cookie_iff_dirty O o s exc :
+  finish O o s exc <> FNone <-> (dirty s = true /\ (soe o = true \/ exc = false)).
+Proof.
+  rewrite finish_spec. destruct (dirty s), (soe o), exc; cbn;
+    try (destruct (Z.gtb _ _)); split; intros H; try congruence; try tauto;
+    try (destruct H as [? [?|?]]; congruence); try (repeat split; auto; fail).
+Qed.
+
+Lemma tamper_new_empty O o c now :
+  init O o (Some c) now = IOk (fresh_sess now)
+  \/ exists p, unb64 O c = Some (mac O (key o) p ++ p).
+Proof.
+  destruct (valid_signed O (key o) c) eqn:V; [right|left; apply init_unsigned, V].
+  unfold valid_signed in V. destruct (unb64 O c) as [f|]; [|discriminate].
+  apply text_eqb_eq in V. exists (skipn (ds O) f). rewrite V, firstn_skipn. reflexivity.
+Qed.
+
+Lemma oversize_refused O o s exc :
+  dirty s = true -> (soe o = true \/ exc = false) ->
+  (Z.of_nat (length (cookie_of O o s)) > Z.of_N cookie_limit)%Z ->
+  finish O o s exc = FOversize.
+Proof.
+  intros D E G. rewrite finish_spec, D.
+  assert (negb (negb (soe o) && exc) = true) as -> by (destruct E as [-> | ->]; [reflexivity|destruct (soe o); reflexivity]).
+  cbn [andb]. apply Z.gt_lt in G. apply Z.ltb_lt in G. rewrite Z.gtb_ltb, G. reflexivity.
+Qed.
+
+Lemma reissue_boundary o p t s r :
+  op_cls p (st s) = CAcc -> reissue o = Some r ->
+  dirty (fst (step o p t s)) = dirty s || Z.gtb (t - tval (renewed s)) r.
+Proof.
+  intros C R. rewrite step_eff, C.
+  pose proof (f_equal snd (eff_flags o CAcc t s)) as F. cbn [snd] in F. rewrite R in F. exact F.
+Qed.
+
+Lemma created_preserved o l s : created (fst (run_ops o l s)) = created s.
+Proof. apply run_ops_spec. Qed.
+
+(* ------------------------------------------------------------------ non-vacuity *)
+Definition ex_p1 : jv := JList [JInt 100; JFlt 100; JObj [([97]%N, JInt 1)]].
+Definition ex_blob : text := [7%N] ++ json_dumps ex_p1.
+Definition ex_O : oracles :=
+  {| mac := fun _ _ => [7%N]; ser := json_dumps;
+     deser := fun b => if text_eqb b (json_dumps ex_p1) then Some ex_p1 else None;
+     b64 := b64enc;
+     unb64 := fun c => if text_eqb c (b64enc ex_blob) then Some ex_blob else None;
+     ds := 1 |}.
+Definition ex_o : opts := {| key := [107]%N; timeout := Some 1200%Z; reissue := Some 5000%Z; soe := true |}.
+Definition ex_chain : list req :=
+  [ {| rsrc := SNone; rt := 100; rops := [(OSetItem [97]%N (JInt 1), 100%Z)]; rexc := false |};
+    {| rsrc := SLast; rt := 1300; rops := [(OItems, 1300%Z)]; rexc := false |};
+    {| rsrc := SText [65; 65]%N; rt := 1301; rops := [(OLen, 1301%Z)]; rexc := false |};
+    {| rsrc := SLast; rt := 1301; rops := []; rexc := false |} ].
+
+(* the value stored in request 1 is there at the start of request 2 (exactly at the timeout),
+   garbage gives a new empty session, and one second past the timeout the state is empty *)
+Example ex_persistence :
+  map (fun ob => match proj ob with Some b => Some (b_new b, b_start b, b_fin b) | None => None end)
+      (run_chain ex_O ex_o None ex_chain)
+  = [Some (true, [], 1%N); Some (false, [([97]%N, JInt 1)], 0%N); Some (true, [], 0%N);
+     Some (false, [], 0%N)].
+Proof. vm_compute. reflexivity. Qed.
+
+Example ex_spec_agrees :
+  map proj (run_chain ex_O ex_o None ex_chain) = spec_chain ex_O ex_o None true ex_chain.
+Proof. vm_compute. reflexivity. Qed.
+
+(* swapping a wrapper breaks the obligation: a table in which pop is wrapped by manage_accessed *)
+Example ex_swapped_wrapper_detected :
+  (match lookup_tab nm_pop (map (fun e => if text_eqb (fst e) nm_pop then (fst e, (1%N, snd (snd e))) else e) wrapper_table)
+   with Some (k, _) => k | None => 0%N end) <> expected_wrapper MPop.
+Proof. vm_compute. discriminate. Qed.
